@@ -283,6 +283,42 @@ func AnalyseWith(x interface{}, flags bool) Row {
 			}
 		}
 	}()
+	// (d) an instruction may USE ITSELF (`%p = phi i32 [ %n, %entry ], [ %p, %loop ]`, a call in its own unreachable argument list): with the instruction
+	// itself stored in every slot the view must still expose exactly those slots
+	func() {
+		defer func() {
+			if e := recover(); e != nil {
+				row.Live = false
+			}
+		}()
+		inst5 := reflect.New(t)
+		self, ok := inst5.Interface().(value.Value)
+		if !ok {
+			return
+		}
+		var slots5 []slot
+		n5 := 0
+		fill(inst5.Elem(), "", &slots5, &n5)
+		if flags {
+			setFlags(inst5.Elem())
+		}
+		by5 := map[uintptr]string{}
+		for _, s5 := range slots5 {
+			s5.v.Set(reflect.ValueOf(self))
+			by5[s5.addr] = s5.path
+		}
+		var got []string
+		for _, p := range inst5.Interface().(operander).Operands() {
+			if path, ok := by5[reflect.ValueOf(p).Pointer()]; ok {
+				got = append(got, path)
+			} else {
+				got = append(got, "?")
+			}
+		}
+		if strings.Join(got, ",") != strings.Join(row.Operands, ",") {
+			row.Live = false
+		}
+	}()
 	// one slot at a time, with the successor list already computed once (a cached list must not survive ANY single retargeting)
 	if _, ok := inst.Interface().(succer); ok && len(row.Succs) > 0 && row.Succs[0] != "panic" {
 		for k := range row.Succs {
